@@ -264,7 +264,7 @@ func descFiles(fs []kv) string {
 }
 
 func main() {
-	mode := flag.String("mode", "dir", "dir|line|ops|cliops|consumers")
+	mode := flag.String("mode", "dir", "dir|line|ops|cliops|consumers|formats")
 	tier := flag.String("tier", "quick", "quick|thorough")
 	outDir := flag.String("out", "", "output directory")
 	flag.Parse()
@@ -290,6 +290,8 @@ func main() {
 		genCli(w, *tier)
 	case "consumers":
 		genCons(w, *tier)
+	case "formats":
+		genFmt(w, *tier)
 	default:
 		fmt.Fprintln(os.Stderr, "unknown mode")
 		os.Exit(2)
